@@ -473,6 +473,14 @@ func init() {
 		Setup:           c02setup,
 		ClassifyCrash:   c02classify,
 		HangIsViolation: true,
-		MinDistinct:     300,
+		// lexer goroutine <-> parser hand-off under the race detector (thorough tier only; ./check builds the race binary then)
+		RaceSide: func(tier string) (int, int) {
+			if tier != "thorough" {
+				return 0, 0
+			}
+			n := len(c02tokens) * len(c02tokens) * 2 * len(delimCfgs)
+			return n, n + 40000
+		},
+		MinDistinct: 300,
 	})
 }
